@@ -450,3 +450,74 @@ def run(ck, prog):
     _run_pre_stride(ck, prog)
     from sa import stride
     stride.run_rule(ck, prog, set(DIMENSION_FILES))
+
+
+# ------------------------------------------------------------------ QR::solve: a tall system returns the n solution rows, not the m-row work matrix
+_run_pre_qrsolve = run
+
+
+def qr_solve_rows(ck, prog):
+    """'for tall A the QR and SVD solvers return the least-squares solution': X has n = cols(A) rows.  QR::solve works in
+    place on b (m rows); handing b back is right only when m == n.  Rule: every `Ok(payload)` of QR::solve whose payload is
+    the parameter b itself sits behind the equality edge of a test of rows(QR) against cols(QR); any other payload is built
+    with cols(QR) rows (slice 0..n / zeros(n, _))."""
+    from sa.match import dim_of
+    from sa.guards import ATOMS, NEG
+    rule, inst = "E2-dimension", "QR::solve: the matrix returned has cols(A) rows (b itself only when A is square)"
+    bs = prog.find(r"^linalg::qr::QR::<T, M>::solve$")
+    if len(bs) != 1:
+        ck.violation(rule, inst, "QR::solve", "", expected="anchor exists", found=f"{len(bs)} bodies")
+        return
+    b = bs[0]
+    cx = BodyCtx.of(b)
+    res = cx.res
+
+    def is_qr_dim(t, kind):
+        d = dim_of(t)
+        return bool(d) and d[0] == kind and d[1][0] == "field" and d[1][2] == "QR"
+    square_edges = []
+    for c in cx.cmps:
+        if (is_qr_dim(c.lhs, "rows") and is_qr_dim(c.rhs, "cols")) or (is_qr_dim(c.lhs, "cols") and is_qr_dim(c.rhs, "rows")):
+            for rel, dst, other in ((c.rel, c.true_bb, c.false_bb), (NEG[c.rel], c.false_bb, c.true_bb)):
+                if ATOMS[rel] == frozenset("z"):
+                    square_edges.append((dst, other))
+    n = 0
+    for i, j, s in b.stmts():
+        if not (s["k"] == "assign" and s["r"]["k"] == "agg" and s["r"].get("variant") == "Ok" and s["r"]["ops"]):
+            continue
+        n += 1
+        pay = res.operand(s["r"]["ops"][0])
+        roots = [pay] + list(alts(pay))
+        is_b = any(a[0] == "arg" and a[1] == 2 for a in roots) or (pay[0] == "phi" and any(a[0] == "arg" and a[1] == 2 for a in pay[2]))
+        if is_b:
+            if any(b.dominates(dst, i) and not b.dominates(other, i) for dst, other in square_edges):
+                ck.ok(rule, inst, b.path, b.where(i, j), "b handed back behind rows(QR) == cols(QR)")
+            else:
+                ck.violation(rule, inst, b.path, b.where(i, j), ordinal=n, expected="Ok(b.slice(0..n, ..)) for m > n",
+                             found="the m-row work matrix b is returned as the solution for every shape: rows n..m of a tall system are Q^T b residue")
+        else:
+            rows = None
+            for a in roots:
+                if a[0] == "call" and a[1].split("::")[-1] == "slice" and len(a[2]) >= 2:
+                    r0 = a[2][1]
+                    if r0[0] == "agg" and r0[1].endswith("Range::Range"):
+                        rows = r0[2][1]
+                if a[0] == "call" and a[1].split("::")[-1] == "zeros" and a[2]:
+                    rows = a[2][0]
+            if rows is not None and is_qr_dim(rows, "cols"):
+                ck.ok(rule, inst, b.path, b.where(i, j), f"payload with {render(rows)} rows")
+            elif rows is not None:
+                ck.violation(rule, inst, b.path, b.where(i, j), ordinal=n, expected="cols(QR) rows", found=f"payload with `{render(rows)[:50]}` rows")
+            else:
+                ck.ok(rule, inst, b.path, b.where(i, j), f"payload `{render(pay)[:60]}` (row count not syntactic)")
+    if n == 0:
+        ck.note(f"{inst}: no Ok(..) in QR::solve: no instance")
+
+
+def run(ck, prog):
+    _run_pre_qrsolve(ck, prog)
+    qr_solve_rows(ck, prog)
+
+
+EXPLANATION += (" QR::solve hands back the in-place work matrix b only behind rows(QR) == cols(QR); otherwise the payload has cols(QR) rows "
+                "(found and fixed: m-row result for every tall system).")
